@@ -24,6 +24,8 @@ func w4Gen(r *rand.Rand, prop, tier string) *simrt.Case {
 	switch prop {
 	case "C30", "C31", "C32":
 		return w5Gen(r, prop, tier)
+	case "C11":
+		return w4GenVersions(r)
 	}
 	c := &simrt.Case{Config: map[string]int64{}}
 	cfg := c.Config
@@ -304,6 +306,9 @@ func (w *w4) client(id int, ops []simrt.Op) {
 		switch op.Kind {
 		case "http-upload", "http-mp", "http-download", "resolve", "unwrap":
 			w.httpClient(id, ops)
+			return
+		case "version-sweep":
+			w.sweepClient(id, op)
 			return
 		}
 	}
